@@ -43,30 +43,6 @@ pub open spec fn same_kind_cmp(a: CelValue, b: CelValue) -> Ordering {
 pub open spec fn comparable_same_kind(a: CelValue, b: CelValue) -> bool { ckind(a) != 0 && ckind(a) == ckind(b) }
 pub open spec fn unrelated(a: CelValue, b: CelValue) -> bool { !integral_pair(a, b) && !double_pair(a, b) && !comparable_same_kind(a, b) }
 
-/// truthiness, from the statement: non-zero numbers, true, non-empty strings/bytes/lists/maps, types, timestamps and durations are
-/// truthy; zero, false, empties, null and failures are not (values of kinds the statement does not list -- idents, code blocks -- are not)
-pub uninterp spec fn f64_is_zero(f: f64) -> bool;
-pub uninterp spec fn dyn_truthy(d: DynArc) -> bool;
-pub open spec fn spec_truthy(v: CelValue) -> bool {
-    match v {
-        CelValue::Int(i) => i != 0,
-        CelValue::UInt(u) => u != 0,
-        CelValue::Float(f) => !f64_is_zero(f),
-        CelValue::Bool(b) => b,
-        CelValue::String(s) => s@.len() != 0,
-        CelValue::Bytes(b) => b@.len() != 0,
-        CelValue::List(l) => l@.len() != 0,
-        CelValue::Map(m) => m@.len() != 0,
-        CelValue::Null => false,
-        CelValue::Type(_) => true,
-        CelValue::TimeStamp(_) => true,
-        CelValue::Duration(_) => true,
-        CelValue::Dyn(d) => dyn_truthy(d),
-        CelValue::Err(_) => false,
-        _ => false,
-    }
-}
-
 // ---- the laws of C04 over the integer order, proved once for all values ------------------------------------------------------
 pub proof fn law_int_trichotomy(x: int, y: int)
     ensures (x < y) != (x == y || x > y), (x == y) ==> !(x > y), int_cmp(x, y) is Less <==> x < y, int_cmp(x, y) is Equal <==> x == y, int_cmp(x, y) is Greater <==> x > y
@@ -100,21 +76,9 @@ TRAMP = r'''
 #[verifier::external_body] pub fn list_eq(l: Vec<CelValue>, r: Vec<CelValue>) -> (o: CelValue) ensures o is Bool || o is Err { unimplemented!() }
 #[verifier::external_body] pub fn map_eq(l: HashMap<String, CelValue>, r: HashMap<String, CelValue>) -> (o: CelValue) ensures o is Bool { unimplemented!() }
 pub assume_specification[ String::len ](s: &String) -> (r: usize) ensures r >= s@.len(), (r == 0) == (s@.len() == 0);   // UTF-8 byte length
-impl View for CelBytes { type V = Seq<u8>; closed spec fn view(&self) -> Seq<u8> { self.inner@ } }
 '''
 
 TRAIT = r'''
-// the CelValueDyn trait restated without its supertraits and without any_ref (&dyn Any) and access (unit value_coll)
-pub trait CelValueDyn {
-    fn as_type(&self) -> CelValue;
-    fn eq(&self, rhs: &CelValue) -> CelValue;
-    fn is_truthy(&self) -> bool;
-}
-impl DynArc {
-    #[verifier::external_body] pub fn as_type(&self) -> CelValue { unimplemented!() }
-    #[verifier::external_body] pub fn eq(&self, rhs: &CelValue) -> CelValue { unimplemented!() }
-    #[verifier::external_body] pub fn is_truthy(&self) -> (r: bool) ensures r == dyn_truthy(*self) { unimplemented!() }
-}
 impl vstd::std_specs::ops::NotSpecImpl for CelValue { open spec fn obeys_not_spec() -> bool { false } open spec fn not_req(self) -> bool { true } open spec fn not_spec(self) -> CelValue { arbitrary() } }
 '''
 
@@ -153,8 +117,8 @@ def build():
     U.raw(C.STANDINS, 'S1 stand-ins')
     C.value_types(U)
     U.raw(C.DERIVED, 'assumed derived impls')
-    U.raw(TRAIT, 'CelValueDyn trait restated')
-    U.raw(C.VALUE_SPECS + SPECS, 'spec functions')
+    U.raw(C.TRAIT_FULL + TRAIT, 'CelValueDyn trait restated')
+    U.raw(C.VALUE_SPECS + C.TRUTHY_SPEC + SPECS, 'spec functions')
     U.raw(TRAMP, 'assumed comparison specs')
     U.raw(C.STD_SPECS, 'assumed std specs')
     U.raw(C.AXIOMS, 'axioms')
@@ -231,11 +195,10 @@ pub open spec fn scalar_eq_ok(a: CelValue, b: CelValue, r: CelValue, negate: boo
     } }
 }
 ''', 'equality spec')
-    U.extract(C.CV, 'impl CelValue', fns=fns)
+    U.extract(C.CV, 'impl CelValue', fns=fns, others='stub')
     C.from_impls(U, ('i64', 'u64', 'f64', 'bool', 'CelError'))
     U.raw(C.FROM_SPEC_IMPLS, 'From spec impls')
     U.extract(C.CV, 'impl CelValueDyn for CelValue', fns={
-        'as_type': A(stub=True, note='only feeds error messages'),
         'is_truthy': A(ret='r', ensures=[('truthiness_table', 'r == spec_truthy(*self)')],
                        arm_rewrites={'CelValue::Float(f)': [('*f != 0.0', 'f64_ne_zero(*f)', R2C)]}, props=('C05', 'C01')),
         'eq': A(ret='r', attrs=['#[verifier::exec_allows_no_decreases_clause]'], ensures=[
@@ -257,7 +220,7 @@ pub open spec fn scalar_eq_ok(a: CelValue, b: CelValue, r: CelValue, negate: boo
             arm_replace={'(CelValue::List(l), CelValue::List(r))': ('{ list_eq(l, r) }', 'std::iter::zip has no Verus support; element-wise list equality is NOT verified'),
                          '(CelValue::Map(l), CelValue::Map(r))': ('{ map_eq(l, r) }', 'HashMap<String,_>::into_iter / remove have no Verus support; map equality is NOT verified')},
             props=('C04', 'C01')),
-    })
+    }, others='stub', skip=('any_ref',))
     U.extract(C.CV, 'impl Not for CelValue', fns={'not': A(ret='r', ensures=[
         ('error_kept', 'self is Err ==> r == self'),
         ('negated_truthiness', '!(self is Err) ==> r == CelValue::Bool(!spec_truthy(self))'),
